@@ -637,12 +637,59 @@ def _inv_obligations(I, s, desc, label):
     I.ctx.obligations.extend(obs)
 
 
+def carried_names(node, st):
+    """names assigned in the loop body that are already bound when the loop is entered (the loop-carried
+    variables), in source order; the loop target is not one of them"""
+    targets = set(_target_names(node.target)) if isinstance(node, ast.For) else set()
+    found = []
+    for stmt in node.body:
+        for n_ in ast.walk(stmt):
+            if isinstance(n_, ast.Name) and isinstance(n_.ctx, ast.Store) and n_.id not in targets and n_.id in st.env:
+                found.append((n_.lineno, n_.col_offset, n_.id))
+            # a local list / set / deque that the body grows in place
+            if isinstance(n_, ast.Call) and isinstance(n_.func, ast.Attribute) and isinstance(n_.func.value, ast.Name) and \
+                    n_.func.attr in ("append", "extend", "add", "appendleft", "extendleft", "insert", "update") and \
+                    n_.func.value.id not in targets and n_.func.value.id in st.env and n_.func.value.id != "self":
+                found.append((n_.lineno, n_.col_offset, n_.func.value.id))
+    out = []
+    for _, _, name in sorted(found):
+        if name not in out:
+            out.append(name)
+    return out
+
+
+def _resolve_names(desc, node, st):
+    """Invariants name loop-carried variables by the names the code had when they were written; after a
+    renaming of locals the same roles are found by position: the i-th name of the invariant that is not
+    bound in the function is the i-th loop-carried variable that the invariant does not mention."""
+    logical = list(desc.get("env", {})) + list(desc.get("lists", {}))
+    carried = carried_names(node, st)
+    missing = [l for l in logical if l not in carried]
+    if not missing:
+        return {}
+    cands = [c for c in carried if c not in logical]
+    return dict(zip(missing, cands)) if len(missing) == len(cands) else {}
+
+
+def _renamed(desc, ren):
+    if not ren:
+        return desc
+    d = dict(desc)
+    for part in ("env", "lists"):
+        if part in d:
+            d[part] = {ren.get(k, k): v for k, v in d[part].items()}
+    return d
+
+
 def _with_invariant(I, node, st, spec, inv, ordinal):
     ctx = I.ctx
     lo = spec.start if spec.start is not None else z3.IntVal(0)
     n = spec.n
     label = "loop%d" % ordinal
     # 1. initialisation
+    ren = _resolve_names(inv.at(I, st, lo, spec), node, st)
+    _at = inv.at
+    inv = _RenamedInv(inv, ren)
     d0 = inv.at(I, st, lo, spec)
     s0 = st.fork()
     for ax in d0.get("axiom_instances", ()):
@@ -696,6 +743,14 @@ def _with_invariant(I, node, st, spec, inv, ordinal):
     return results
 
 
+class _RenamedInv:
+    def __init__(self, inv, ren):
+        self.inv, self.ren = inv, ren
+
+    def at(self, I, st, k, spec):
+        return _renamed(self.inv.at(I, st, k, spec), self.ren)
+
+
 class WhileInv:
     """Invariant of a while loop: `vars` are the loop-carried names (havocked), formula(I, st) the
     invariant over the current bindings, variant(I, st) an Int term that is >= 0 and strictly decreases."""
@@ -717,6 +772,17 @@ def run_while(I, node, st, inv):
     if node.orelse:
         raise OutOfSubset("while/else")
     name = "%s/L/while%d" % (st.unit.key, loop_ordinal(st.unit, node))
+    # loop-carried variables by position when the names of the invariant are not those of the code (renamed locals)
+    carried = carried_names(node, st)
+    missing = [v for v in inv.vars if v not in carried]
+    if missing:
+        cands = [c for c in carried if c not in inv.vars]
+        if len(cands) == len(missing):
+            ren = dict(zip(missing, cands))
+            inv.names = {v: ren.get(v, v) for v in inv.vars}
+            inv.vars = tuple(inv.names[v] for v in inv.vars)
+    if not hasattr(inv, "names"):
+        inv.names = {v: v for v in inv.vars}
     ctx.obligations.append(Obligation(name + ".init", "L", st.pc, inv.formula(I, st), note="while invariant holds on entry"))
     s = st.fork()
     for v in inv.vars:
